@@ -24,6 +24,8 @@ AMOUNTS = ["None", "0", "1", "2", "p-1", "p", "p+1", "1000000"]
 def _amount(a: str, pending: int) -> t.Optional[int]:
     if a == "None":
         return None
+    if a.lstrip("-").isdigit():
+        return int(a)
     if a.startswith("p"):
         return max(0, pending + int(a[1:] or 0))
     return int(a)
@@ -190,6 +192,67 @@ def replay_case(case: t.Dict[str, t.Any]) -> t.Tuple[bool, str]:
     return ok, "\n".join(lines)
 
 
+def long_drain_runs(role: str) -> t.Tuple[int, t.Dict[str, t.Dict[str, t.Any]]]:
+    """Dozens of messages queued and drained with a fixed cycle of odd amounts (beyond the BFS's <= 3 sends):
+    pending bytes must always equal the accepted encodings minus what was drained."""
+    viol: t.Dict[str, t.Dict[str, t.Any]] = {}
+    steps = 0
+    cycles = {
+        "trickle": [1, 2, 3, 5, 0, 7, 1],
+        "blocks": [64, 0, 4096, 1, 63, 65],
+        "lagging": [0, 0, 0, 0, 0, 0, 0, 0, 0, 0, 0, 0, 33],
+        "exact": ["p", "p-1", "p+1", "None"],
+    }
+    for cname, cyc in cycles.items():
+        s = sess.new_session(role)
+        stream, drained = b"", 0
+        hist: t.List[t.Any] = []
+
+        def check(where: str) -> None:
+            rest = copy.deepcopy(s).data_to_send()
+            if rest != stream[drained:]:
+                e = viol.setdefault(f"long-run-pending-differs:{role}:{cname}", {"what": f"[{cname}] after {where}: session holds {len(rest)} bytes, accepted-minus-drained is {len(stream) - drained}", "history": list(hist), "count": 0})
+                e["count"] += 1
+
+        n = 0
+        for k in range(60):
+            if role == "client":
+                evs = [("call", "search" if k % 2 else "ext", -1)]
+            else:
+                evs = [("recv", "SearchReq", k + 1), ("call", "entry", k + 1), ("call", "ref", k + 1), ("call", "done", k + 1), ("call", "done", k + 1)]
+            for ev in evs:
+                probe = copy.deepcopy(s)
+                probe.data_to_send()
+                try:
+                    sess.apply_event(role, probe, ev)
+                except BaseException:  # noqa: BLE001
+                    pass
+                enc = probe.data_to_send()
+                try:
+                    sess.apply_event(role, s, ev)
+                    if ev[0] == "call":
+                        stream += enc
+                except BaseException:  # noqa: BLE001
+                    pass
+                hist.append(list(ev))
+                steps += 1
+                check(str(ev))
+                a = cyc[n % len(cyc)]
+                n += 1
+                pending = len(stream) - drained
+                amt = _amount(a, pending) if isinstance(a, str) else a
+                got = s.data_to_send(amt)
+                exp = stream[drained:] if amt is None else stream[drained : drained + amt]
+                hist.append(["drain", str(a) if isinstance(a, str) else str(amt), -1])
+                steps += 1
+                if got != exp:
+                    e = viol.setdefault(f"long-run-drain-wrong-bytes:{role}:{cname}", {"what": f"[{cname}] data_to_send({amt}) with {pending} pending returned {len(got)} bytes ({got[:12].hex()}..), expected {len(exp)} ({exp[:12].hex()}..)", "history": list(hist), "count": 0})
+                    e["count"] += 1
+                drained += len(exp)
+                check(f"data_to_send({amt})")
+    return steps, viol
+
+
 def run(ctx: evid.Ctx) -> None:
     max_sends = 3 if ctx.tier == "thorough" else 2
     for role in ("client", "server"):
@@ -203,6 +266,12 @@ def run(ctx: evid.Ctx) -> None:
             ctx.violation(k, e["what"], {"role": role, "history": e["history"]}, e["count"])
         for s in st["samples"][:2]:
             ctx.sample(s)
+    for role in ("client", "server"):
+        steps, viol = long_drain_runs(role)
+        ctx.add("transitions", steps)
+        ctx.add("long_run_steps", steps)
+        for k, e in viol.items():
+            ctx.violation(k, e["what"], {"role": role, "history": e["history"]}, e["count"])
     ctx.counters["evaluations"] = ctx.counters.get("transitions", 0)
     ctx.rule = (
         "explicit-state BFS over one real session with the outgoing buffer kept; transitions are send calls and "
